@@ -1,0 +1,64 @@
+//go:build verif
+
+package s2
+
+// Read-only accessors and exported wrappers used by the model-based
+// verification harness in /verif. This file is only compiled with the
+// "verif" build tag and adds no behaviour to the package.
+
+import (
+	"math/big"
+
+	"github.com/golang/geo/r3"
+	"github.com/golang/geo/s1"
+)
+
+// VerifTriageSign exposes triageSign.
+func VerifTriageSign(a, b, c Point) Direction { return triageSign(a, b, c) }
+
+// VerifStableSign exposes stableSign.
+func VerifStableSign(a, b, c Point) Direction { return stableSign(a, b, c) }
+
+// VerifExactSign exposes exactSign.
+func VerifExactSign(a, b, c Point, perturb bool) Direction { return exactSign(a, b, c, perturb) }
+
+// VerifExpensiveSign exposes expensiveSign.
+func VerifExpensiveSign(a, b, c Point) Direction { return expensiveSign(a, b, c) }
+
+// VerifTriageCompareCosDistances exposes triageCompareCosDistances.
+func VerifTriageCompareCosDistances(x, a, b Point) int { return triageCompareCosDistances(x, a, b) }
+
+// VerifTriageCompareSin2Distances exposes triageCompareSin2Distances.
+func VerifTriageCompareSin2Distances(x, a, b Point) int { return triageCompareSin2Distances(x, a, b) }
+
+// VerifExactCompareDistances exposes exactCompareDistances.
+func VerifExactCompareDistances(x, a, b Point) int {
+	return exactCompareDistances(r3.PreciseVectorFromVector(x.Vector), r3.PreciseVectorFromVector(a.Vector), r3.PreciseVectorFromVector(b.Vector))
+}
+
+// VerifSymbolicCompareDistances exposes symbolicCompareDistances.
+func VerifSymbolicCompareDistances(x, a, b Point) int { return symbolicCompareDistances(x, a, b) }
+
+// VerifTriageCompareCosDistance exposes triageCompareCosDistance.
+func VerifTriageCompareCosDistance(x, y Point, r s1.ChordAngle) int {
+	return triageCompareCosDistance(x, y, float64(r))
+}
+
+// VerifTriageCompareSin2Distance exposes triageCompareSin2Distance.
+func VerifTriageCompareSin2Distance(x, y Point, r s1.ChordAngle) int {
+	return triageCompareSin2Distance(x, y, float64(r))
+}
+
+// VerifExactCompareDistance exposes exactCompareDistance.
+func VerifExactCompareDistance(x, y Point, r s1.ChordAngle) int {
+	return exactCompareDistance(r3.PreciseVectorFromVector(x.Vector), r3.PreciseVectorFromVector(y.Vector), big.NewFloat(float64(r)).SetPrec(big.MaxPrec))
+}
+
+// VerifTriageSignDotProd exposes triageSignDotProd.
+func VerifTriageSignDotProd(a, b Point) int { return triageSignDotProd(a, b) }
+
+// VerifCrosserState returns the chain state of an EdgeCrosser.
+func VerifCrosserState(e *EdgeCrosser) (c Point, acb Direction) { return e.c, e.acb }
+
+// VerifReferenceDir exposes Point.referenceDir.
+func VerifReferenceDir(p Point) Point { return p.referenceDir() }
